@@ -13,7 +13,7 @@ RULE = ("case = (kind ∈ options/snippets/variables, type, syntax, presence bit
         "both types, `xhtml` and unknown syntax names, plus the lattices with type and syntax, or only the syntax, left out of the call config (exhaustive; built-in layers are injected into deep copies of DEFAULT_CONFIG / "
         "SYNTAX_CONFIG swapped in for one case); plus natural keys of the shipped tables ('!!!', 'a', 'tm', selfClosingStyle, jsx.enabled, "
         "stylesheet.after/between) × 2^3 caller layers. Oracle: the key resolves to the sentinel of the most specific defining layer, every other "
-        "key equals the baseline, the same winner is visible through expand(), and deep snapshots of all built-in tables and caller dicts are "
+        "key equals the baseline, the same winner is visible through expand() (for stylesheet snippets also when the call carries a cache filled by an earlier call without caller layers), and deep snapshots of all built-in tables and caller dicts are "
         "unchanged. Non-trivial: ≥ 2 layers define the key; distinct by construction.")
 ASSUME = ["`type` is always passed explicitly (the README's 'syntax implies type' is not implemented and not claimed by C20)",
           "emmet.config looks up DEFAULT_CONFIG / SYNTAX_CONFIG as module globals at call time (true for merged_data); the swap is undone in finally"]
@@ -230,6 +230,14 @@ def check_natural(case, rec):
                 out0 = expand(key, {'type': typ, 'syntax': syntax}, {})
             if out != out0:
                 rec.fail('precedence-via-expand:snippets', '%s/%s expand(%r) = %r differs from the built-in result %r' % (typ, syntax, key, out, out0))
+    if kind == 'snippets' and exp is not None and typ == 'stylesheet':
+        # the same winner when the call carries a cache that an earlier call with other layers (here: none) has filled
+        cache = {}
+        with guard():
+            expand(key, {'type': typ, 'syntax': syntax, 'cache': cache}, {})
+            out_c = expand(key, dict(user, cache=cache), glob)
+        if out_c != out:
+            rec.fail('precedence-via-expand:snippets:shared-cache', '%s/%s expand(%r) with a cache filled by a call without caller layers = %r, without cache %r (layers %s)' % (typ, syntax, key, out_c, out, bits))
     if kind == 'options' and key == 'output.selfClosingStyle':
         with guard():
             out = expand('br', user, glob)
